@@ -58,6 +58,9 @@ enum C19Case {
     TwoByte(u8),        // all second bytes
     Basis(usize, u8),   // every position x every value for strings of this length over a background byte
     ThreeByte(u8, u8),  // thorough: all third bytes for (a,b)
+    /// the incremental CRC-32 step on register values the strings from the initial value rarely reach: every 16 bit pattern x in the low
+    /// and in the high half of the register, and the complements of both (this includes 0 and 0xFFFFFFFF), x all 256 input bytes
+    Crc32State(u8),
 }
 
 impl C19 {
@@ -80,6 +83,10 @@ impl C19 {
             return C19Case::Basis(C19_LENGTHS[i / 3], [0u8, 0xFF, 0xA5][i % 3]);
         }
         i -= nb;
+        if i < 256 {
+            return C19Case::Crc32State(i as u8);
+        }
+        i -= 256;
         C19Case::ThreeByte((i >> 8) as u8, i as u8)
     }
 }
@@ -123,7 +130,7 @@ fn len_class(l: usize) -> &'static str {
 
 impl Engine for C19 {
     fn total(&self) -> u64 {
-        let base = 256 + 16 + 256 + (C19_LENGTHS.len() * 3) as u64;
+        let base = 256 + 16 + 256 + (C19_LENGTHS.len() * 3) as u64 + 256;
         if self.thorough {
             base + 65536
         } else {
@@ -226,6 +233,31 @@ impl Engine for C19 {
                     }
                 }
             }
+            C19Case::Crc32State(h) => {
+                let mut first = None;
+                let mut bad = 0u64;
+                let mut f = Fnv::new();
+                for lo in 0..=255u32 {
+                    let x = (h as u32) << 8 | lo;
+                    for st in [x, x << 16, !x, !(x << 16)] {
+                        for b in 0..=255u8 {
+                            let got = update_crc32(st, b);
+                            let want = crc32_bitwise_raw(st, &[b]);
+                            f.u32(got);
+                            if got != want {
+                                bad += 1;
+                                first.get_or_insert((st, b, got, want));
+                            }
+                        }
+                    }
+                }
+                ctx.count("evaluations", 4 * 65536);
+                ctx.count("transitions", 4 * 65536);
+                ctx.state(f.finish());
+                if let Some((st, b, got, want)) = first {
+                    ctx.violation("diff:crc32:update-step", json!({"register": st, "byte": b, "got": got, "want": want, "bad_in_batch": bad}));
+                }
+            }
             C19Case::ThreeByte(a, b) => {
                 for c in 0..=255u8 {
                     check_string(&[a, b, c], ctx);
@@ -253,14 +285,15 @@ fn converters() -> Vec<(&'static str, Box<dyn UnicodeConverter>, u32)> {
 
 impl Engine for C18 {
     fn total(&self) -> u64 {
-        // 3 byte batches (one per mode) + 3 tuple batches + 4 converter code batches + 4 alnum batches
-        14
+        // 3 byte batches (one per mode) + 3 tuple batches + 4 converter code batches + 4 alnum batches + 4 batches of interleaved calls
+        18
     }
     fn describe(&self, idx: u64) -> Value {
         let what = match idx {
             0..=2 => format!("all 256 attribute bytes decode->encode in mode {:?}", MODES[idx as usize]),
             3..=5 => format!("all (fg,bg,blink,bold) tuples expressible in mode {:?} encode->decode", MODES[idx as usize - 3]),
             6..=9 => format!("all 256 codes through converter {}", converters()[idx as usize - 6].0),
+            14..=17 => format!("round trips of converter {} with every other conversion call interleaved (all ordered pairs)", converters()[idx as usize - 14].0),
             _ => format!("63 alphanumerics+space through converter {}", converters()[idx as usize - 10].0),
         };
         json!({"engine":"C18","idx":idx,"batch":what})
@@ -364,6 +397,53 @@ impl Engine for C18 {
                     }
                 }
                 ctx.count(&format!("roundtrip_ok_{name}"), ok);
+            }
+            14..=17 => {
+                // the converters are used as pure functions: a round trip must not depend on which conversion was asked for in between
+                let (name, conv, claimed) = converters().swap_remove(idx as usize - 14);
+                let typed: Vec<char> = ('a'..='z').chain('A'..='Z').chain('0'..='9').chain([' ']).collect();
+                let at = |c: u32| AttributedChar::new(char::from_u32(c).unwrap(), TextAttribute::default());
+                let images: Vec<char> = (0..256u32).map(|c| conv.convert_to_unicode(at(c))).collect();
+                let mut f = Fnv::new();
+                // code -> unicode, [other code -> unicode], unicode -> code
+                for b in 0..claimed {
+                    for a in 0..256u32 {
+                        let u = conv.convert_to_unicode(at(b));
+                        let _ = conv.convert_to_unicode(at(a));
+                        let back = conv.convert_from_unicode(u, 0);
+                        ctx.count("evaluations", 1);
+                        ctx.count("transitions", 3);
+                        if back as u32 != b {
+                            ctx.violation(format!("diff:codepage:{name}:code-roundtrip-with-interleaved-call"), json!({"code": b, "interleaved_code": a, "unicode": u as u32, "back": back as u32}));
+                            return;
+                        }
+                    }
+                }
+                // typed char -> code, with another unicode -> code call directly before it
+                for x in images.iter().chain(typed.iter()) {
+                    for y in &typed {
+                        let _ = conv.convert_from_unicode(*x, 0);
+                        let code = conv.convert_from_unicode(*y, 0);
+                        let back = conv.convert_to_unicode(AttributedChar::new(code, TextAttribute::default()));
+                        f.u32(code as u32);
+                        ctx.count("evaluations", 1);
+                        ctx.count("transitions", 3);
+                        if back != *y {
+                            ctx.violation(format!("diff:codepage:{name}:typed-char-after-another-lookup"), json!({"previous_lookup": *x as u32, "typed": y.to_string(), "code": code as u32, "back": back as u32}));
+                            return;
+                        }
+                        // and the code -> unicode direction after a unicode -> code call
+                        let _ = conv.convert_to_unicode(at(*x as u32 & 0xFF));
+                        let code2 = conv.convert_from_unicode(*y, 0);
+                        if code2 != code {
+                            ctx.violation(format!("diff:codepage:{name}:typed-char-depends-on-history"), json!({"typed": y.to_string(), "code": code as u32, "code_after_other_call": code2 as u32}));
+                            return;
+                        }
+                    }
+                }
+                f.u8(idx as u8);
+                ctx.state(f.finish());
+                ctx.count("nontrivial", 1);
             }
             _ => {
                 let (name, conv, _) = converters().swap_remove(idx as usize - 10);
